@@ -334,7 +334,12 @@ func (w *world) exec(s PStmt) (panicked any) {
 		w.defOrigin = append(w.defOrigin, w.defOrigin[s.D])
 		w.coq = append(w.coq, fmt.Sprintf("(SWithOptions %s %s)", cNat(s.D), oc))
 	case "new":
-		e := w.defs[s.F].New(s.Msg)
+		var e error
+		if s.Ty == "top" {
+			e = newAtTop(w.defs[s.F], s.Msg) // call site on line 2 of a real file
+		} else {
+			e = w.defs[s.F].New(s.Msg)
+		}
 		w.errs = append(w.errs, e)
 		w.coq = append(w.coq, fmt.Sprintf("(SNew %s %s %s)", cNat(s.F), cStr(s.Msg), coqFrames(e)))
 	case "errorf":
@@ -483,7 +488,11 @@ func genOpts(r *Rng, cfg p1Cfg, pool []gval, max int) []POpt {
 			}
 			out = append(out, POpt{T: "field", Key: k, Val: Pick(r, vs)})
 		case x == 8 && cfg.Trace:
-			out = append(out, POpt{T: Pick(r, []string{"skip", "depth", "notrace", "depth"}), N: r.Intn(3)})
+			o := POpt{T: Pick(r, []string{"skip", "depth", "notrace", "depth"}), N: r.Intn(3)}
+			if o.T == "skip" && r.Chance(1, 3) {
+				o.N = 1000 // more than the call depth: a stack object with zero frames
+			}
+			out = append(out, o)
 		case x == 9 && cfg.Presenters:
 			out = append(out, POpt{T: Pick(r, []string{"fmt", "json", "log"}), ID: 1 + r.Intn(2)})
 		case x == 10:
@@ -561,7 +570,11 @@ func genProg(r *Rng, cfg p1Cfg) []PStmt {
 			p = append(p, PStmt{T: "withopts", D: r.Intn(ndefs), Opts: genOpts(r, cfg, pool, 2)})
 			ndefs++
 		case x == 6:
-			p = append(p, PStmt{T: "new", F: r.Intn(ndefs), Msg: Pick(r, p1Msgs)})
+			ty := ""
+			if cfg.Trace && r.Chance(1, 3) {
+				ty = "top"
+			}
+			p = append(p, PStmt{T: "new", F: r.Intn(ndefs), Msg: Pick(r, p1Msgs), Ty: ty})
 			nerrs++
 		case x == 7:
 			f, a := pickFormat(r, pool)
